@@ -413,7 +413,7 @@ Lemma list_lines_ok keys toks :
   (forall n, In n keys -> toks_get n toks <> None) ->
   exists ls, list_lines keys toks = Ok ls
     /\ ls = map (fun n => show_N n ++ [32] ++
-                  show_tokens (match toks_get n toks with Some ts => ts | None => [] end) ++ [10]) keys.
+                  show_listing (match toks_get n toks with Some ts => ts | None => [] end) ++ [10]) keys.
 Proof.
   induction keys as [|n keys IH]; intros H; cbn [list_lines map].
   - eexists; split; reflexivity.
